@@ -300,6 +300,7 @@ func (r *c26Reader) byt() (byte, bool) {
 	r.b = r.b[1:]
 	return x, true
 }
+
 // skipStr mirrors binaryReader.str / binaryReader.bitmap. A byte length that
 // is negative as int passes the decoders' "l > len(b)" test; neg reports it.
 func (r *c26Reader) skipStr() (l int, neg bool) {
